@@ -118,7 +118,12 @@ class _AbsGen(BaseRandomICGenerator):
     tag: str = "G"
 
     def __call__(self, num_points, *, key):
-        return ops._rnd(ops.Key(("gen", self.tag, key.tag)), (1,) + (num_points,) * self.num_spatial_dims, "N")[0]
+        k, shape = ops.Key(("gen", self.tag, key.tag)), (1,) + (num_points,) * self.num_spatial_dims
+        from symjnp import native
+        if native.IN_REAL_CALL[0]:   # called by the real code in a native run: the same draw, as a jax array
+            import jax.numpy as jnp
+            return jnp.asarray(native.draw_native(k, shape, "N"))
+        return ops._rnd(k, shape, "N")[0]
 
 
 def _abs_gen(D, tag="G"):
